@@ -75,6 +75,13 @@ def canon(x):
     return json.dumps(pyref.erase(x, drop=("_awd",)), sort_keys=True, default=repr)
 
 
+# optional fields that hold a plain identifier / marker rather than a node
+OPTIONAL_SCALARS = {"ExceptHandler": ("name",), "alias": ("asname",), "keyword": ("arg",), "MatchAs": ("name",), "MatchStar": ("name",), "MatchMapping": ("rest",),
+                    "ImportFrom": ("module",), "Constant": ("kind",), "arg": ("type_comment",)}
+# every (kind.field, state) the grammar can produce; a state the workload never produced is reported in the evidence
+EXPECTED_STATES = None
+
+
 def census(tree, shapes):
     for n, p, f in pyref.walk(tree):
         t = n["_t"]
@@ -84,6 +91,8 @@ def census(tree, shapes):
             elif v is None:
                 shapes["%s.%s:absent" % (t, k)] += 1
             elif pyref.is_node(v):
+                shapes["%s.%s:present" % (t, k)] += 1
+            elif k in OPTIONAL_SCALARS.get(t, ()):
                 shapes["%s.%s:present" % (t, k)] += 1
 
 
